@@ -172,12 +172,11 @@ func (g *c15Gen) stmt(d int) string {
 	case 6:
 		return "func g" + g.pick("1", "2") + "(p, q) {\n" + g.stmt(d-1) + "\n" + g.bareExpr(d-1) + "\n}"
 	case 7:
-		return g.pick("x++", "y--", "println(" + g.expr(d-1) + ")")
+		return g.pick("x++", "y--", "println("+g.expr(d-1)+")")
 	default:
 		return g.pick("// note", "/* note */ ") + g.pick("", "x = "+g.expr(0))
 	}
 }
-
 
 var c15BinaryOps = map[token.Type]bool{
 	token.PLUS: true, token.MINUS: true, token.ASTERISK: true, token.SLASH: true, token.PERCENT: true, token.LT: true, token.GT: true,
